@@ -15,7 +15,8 @@ Families
   svi           svi_variance / SVIVariance over a parameter alphabet (sigma positive and not 1, zero, negative).
   bilerp        bilerp over a dyadic value alphabet^4 x weights^2 (incl. extrapolation 1.5), exact.
   box_muller    box_muller over a uniform grid incl. 0 and values below epsilon.
-  realized      realized_variance / realized_volatility on all paths of length 2..T.
+  realized      realized_variance / realized_volatility on all paths of length 2..T; dt as float, 0-d tensor and
+                per-path tensor of shape (N,) with N == T-1 and N != T-1.
 """
 from __future__ import annotations
 
@@ -711,17 +712,39 @@ def realized(ctx, block):
     N, T = len(paths), len(paths[0])
     x = torch.tensor(paths, dtype=torch.int64).to(dtype) / 16
     frp = [[Fraction(v, 16) for v in p] for p in paths]
-    for dt in block["dts"]:
-        ref = [payoff_ref.realized_variance(p, dt) for p in frp]
-        form = block.get("dt_form", "float")
-        dta = dt if form == "float" else torch.tensor(dt, dtype=dtype)
+    form = block.get("dt_form", "float")
+    # 'per_path': dt is a tensor of shape (N,), one step size per path (documented type: Tensor or float; the
+    # output shape is (*), so a (*)-shaped dt divides path i's mean squared log-return by dt_i); the step sizes
+    # cycle through the dt alphabet so that neighbouring paths differ.  Run with N == T-1 and N != T-1.
+    settings = [block["dts"]] if form == "per_path" else [[dt] for dt in block["dts"]]
+    for dts in settings:
+        per_path = [dts[i % len(dts)] for i in range(N)]
+        dt = dts[0] if form != "per_path" else per_path
+        ref = [payoff_ref.realized_variance(p, per_path[i]) for i, p in enumerate(frp)]
+        if form == "float":
+            dta = dt
+        elif form == "tensor":
+            dta = torch.tensor(dt, dtype=dtype)
+        else:
+            dta = torch.tensor(per_path, dtype=dtype)
         layout = block.get("layout", "flat")
         xin = x if layout == "flat" else x.reshape(1, N, T)
-        var = F.realized_variance(xin, dt=dta)
-        vol = F.realized_volatility(xin, dt=dta)
+        try:
+            var = F.realized_variance(xin, dt=dta)
+            vol = F.realized_volatility(xin, dt=dta)
+        except RuntimeError as e:
+            if form != "per_path":
+                raise
+            ctx.tick(N)
+            ctx.violation("functional.realized_variance", f"raises:RuntimeError:dt_per_path:{'N=T-1' if N == T - 1 else 'N!=T-1'}",
+                          f"realized_variance(input{tuple(xin.shape)}, dt=tensor{tuple(dta.shape)}) raised: {str(e)[:160]}",
+                          observed="RuntimeError", expected=f"tensor of shape ({N},)", block=dict(block))
+            continue
         want = (N,) if layout == "flat" else (1, N)
 
         def mini(path):
+            if form == "per_path":
+                return dict(block)       # the defect depends on N vs T-1: keep the whole (small) path set
             return {"dtype": block["dtype"], "paths16": [path], "dts": [dt], "dt_form": form, "layout": layout}
         for site, out in (("functional.realized_variance", var), ("functional.realized_volatility", vol)):
             ctx.tick(N, nontrivial=sum(1 for p in paths if len(set(p)) > 1))
@@ -740,11 +763,13 @@ def realized(ctx, block):
                     tol = 0 if v == 0 else tol_var / (2 * e) + eps * e
                 if ol[i] != ol[i] or abs(mp.mpf(ol[i]) - e) > tol:
                     const = len(set(paths[i])) == 1
-                    ctx.violation(site, ("constant_path" if const else f"moving_path:T={'2' if T == 2 else '>2'}") + f":dt_{form}",
-                                  f"{site.split('.')[-1]}(path/16={paths[i]}, dt={dt!r}) = {ol[i]!r}", observed=ol[i],
+                    ctx.violation(site, ("constant_path" if const else f"moving_path:T={'2' if T == 2 else '>2'}") + f":dt_{form}"
+                                  + ((":N=T-1" if N == T - 1 else ":N!=T-1") if form == "per_path" else ""),
+                                  f"{site.split('.')[-1]}(path/16={paths[i]}, dt={per_path[i]!r}"
+                                  f"{' (entry %d of a per-path dt)' % i if form == 'per_path' else ''}) = {ol[i]!r}", observed=ol[i],
                                   expected=float(e), block=mini(paths[i]))
                     break
-            ctx.outcome((site, dt, form, round(sum(ol), 6)))
+            ctx.outcome((site, dts[0], form, N, round(sum(ol), 6)))
 
 
 # ---------------------------------------------------------------------------
@@ -914,3 +939,12 @@ def run(ctx):
                         continue
                     ctx.run("realized", {"dtype": dtype, "T": T, "A16": A16x if T <= 4 else A16,
                                          "dts": [1 / 256, 1 / 250, 0.01], "dt_form": form, "layout": layout})
+            # per-path dt of shape (N,): all paths (N = |A|^T != T-1) and every set of exactly N = T-1 paths
+            # drawn in enumeration order from a 2-symbol alphabet with distinct returns
+            ctx.run("realized", {"dtype": dtype, "T": T, "A16": A16x if T <= 4 else A16,
+                                 "dts": [1 / 256, 1 / 250, 0.01, 0.3], "dt_form": "per_path"})
+            two = [list(p) for p in itertools.product([12, 20], repeat=T)]
+            moving = [p for p in two if len(set(p)) > 1]
+            for start in range(0, len(moving) - (T - 1) + 1):
+                ctx.run("realized", {"dtype": dtype, "paths16": moving[start:start + T - 1],
+                                     "dts": [1 / 256, 0.01, 0.3, 1 / 250], "dt_form": "per_path"})
